@@ -68,12 +68,16 @@ def contract(fn, name):
         except Exception as e:
             FAILS.append(("raises", name, lru, "%s: %s" % (type(e).__name__, e)))
             raise
-        if not isinstance(out, list) or not out or out[0] != lru:
+        try:
+            out_l = list(out)
+        except TypeError:
+            out_l = []
+        if not out_l or out_l[0] != lru:
             FAILS.append(("prefix-not-first", name, lru, out))
-        elif len(set(out)) != len(out):
+        elif len(set(out_l)) != len(out_l):
             FAILS.append(("entry-twice", name, lru, out))
         else:
-            for v in out:
+            for v in out_l:
                 if not shape_ok(lru, v):
                     FAILS.append(("changes-more-than-scheme-and-www", name, lru, v))
                     break
